@@ -118,7 +118,7 @@ def grep_gate():
                         if depth == 0:
                             code.append(line[j])
                         j += 1
-                code = "".join(code)
+                code = re.sub(r'"[^"]*"', '""', "".join(code))
                 if GATE_RE.search(code):
                     bad.append("%s:%d: %s" % (os.path.relpath(path, COQ), i, code.strip()))
                 if re.match(r"\s*(Variable|Variables|Hypothesis|Hypotheses|Context)\b", code):
